@@ -2094,7 +2094,7 @@ func maybeSwitchSnapMetadataTaskSet(st *state.State, snapsup SnapSetup, snapst S
 	}
 
 	var tasks []*state.Task
-	if err := checkChangeConflictIgnoringOneChange(st, snapst.InstanceName(), nil, opts.FromChange); err != nil {
+	if err := checkChangeConflictIgnoringOneChange(st, snapst.InstanceName(), &snapst, opts.FromChange); err != nil {
 		return nil, err
 	}
 
